@@ -12,6 +12,8 @@ OVERLAY = {
 }
 
 RES = {0: "ROk", 1: "RErrArgument", 2: "RErrClosed", 3: "RPanic"}
+NIL_VALUE = -777          # how the executor reports a nil value carried by a timer
+HUGE = [2 ** 62, 2 ** 62 + 1024, 3 * 2 ** 61]     # exactly representable as float64 (JSON), < MaxInt64
 SEC = 1000000000
 T = [["tick"]]
 
@@ -111,11 +113,14 @@ class C12(Property):
         n_clean = max(2, n // 100)
         n_free = max(4, n // 40)
         n_gated = n // 6
+        n_two = n // 20
         for _ in range(n_free):
             cases.append(self._gen_free(rng))
         for _ in range(n_gated):
             cases.append(self._gen_gated(rng))
-        for _ in range(n - n_cache - n_clean - n_free - n_gated):
+        for _ in range(n_two):
+            cases.append(self._gen_two(rng))
+        for _ in range(n - n_cache - n_clean - n_free - n_gated - n_two):
             cases.append(self._gen_wheel(rng))
         for _ in range(n_cache):
             cases.append(self._gen_cache(rng))
@@ -130,6 +135,7 @@ class C12(Property):
         edge = rng.random() < 0.1
         api = rng.random() < 0.35          # rejected calls, Stop
         panics = rng.random() < 0.2
+        huge = interval >= 7 and rng.random() < 0.15     # (interval 1 ns: tickedPos + steps could exceed int64)
         nops = rng.randint(10, 90)
         ops = []
         for _ in range(rng.randint(0, 2 * ns)):
@@ -171,17 +177,23 @@ class C12(Property):
             v = rng.randrange(1000)
             if panics and rng.random() < 0.3:
                 v = v - v % 1000 + 999
+            if api and rng.random() < 0.08:
+                v = None                    # a nil value is a value
+            d = self._delay(rng, ns, interval, edge)
+            if huge and rng.random() < 0.15:
+                d = rng.choice(HUGE)        # near the top of time.Duration: never due within the history
             if r < 0.45:
                 ops.append(["tick"])
             elif r < 0.67:
-                ops.append(["set", k, v, self._delay(rng, ns, interval, edge)])
+                ops.append(["set", k, v, d])
             elif r < 0.90:
-                ops.append(["move", k, self._delay(rng, ns, interval, edge)])
+                ops.append(["move", k, d])
             elif r < 0.98:
                 ops.append(["remove", k])
             else:
                 ops.append(["drain"])
-        return {"kind": "wheel", "n": ns, "interval": interval, "ticker": rng.choice(["rv", "rv", "fake"]), "ops": ops}
+        return {"kind": "wheel", "n": ns, "interval": interval, "ticker": rng.choice(["rv", "rv", "fake"]),
+                "skeys": rng.random() < 0.3, "ops": ops}
 
     def _gen_gated(self, rng):
         """execute callbacks held open by the controller across further ticks; several timers due per tick"""
@@ -221,6 +233,22 @@ class C12(Property):
         ops += [["release", v] for v in rel]
         return {"kind": "wheel", "n": ns, "interval": interval, "ticker": rng.choice(["rv", "fake"]), "hold": hold, "ops": ops}
 
+    def _gen_two(self, rng):
+        """two wheels living side by side (nothing of one may show on the other), operations interleaved"""
+        a, b = self._gen_gated(rng), self._gen_gated(rng)
+        b["hold"] = a["hold"]
+        # the closing releases of b refer to a's hold set now
+        b["ops"] = [o for o in b["ops"] if o[0] != "release"] + [["release", v] for v in a["hold"]]
+        qa = [["@", 0] + o for o in a["ops"]]
+        qb = [["@", 1] + [x if not (o[0] == "set" and j == 2 and x in (900, 901, 902, 903, 904) and x not in a["hold"]) else 5
+                          for j, x in enumerate(o)] for o in b["ops"]]
+        ops = []
+        while qa or qb:
+            q = qa if (qa and (not qb or rng.random() < 0.5)) else qb
+            ops.append(q.pop(0))
+        return {"kind": "wheel", "n": a["n"], "interval": a["interval"], "ticker": a["ticker"], "hold": a["hold"],
+                "skeys": rng.random() < 0.3, "n2": b["n"], "interval2": b["interval"], "ticker2": b["ticker"], "ops": ops}
+
     def _delay(self, rng, ns, interval, edge):
         steps = rng.choice([1, 1, 2, ns - 1, ns, ns + 1, 2 * ns, 2 * ns + 1, rng.randint(1, 4 * ns + 1)])
         steps = max(1, steps)
@@ -230,7 +258,7 @@ class C12(Property):
         return d
 
     def _gen_cache(self, rng):
-        limit = rng.choice([0, 0, 1, 2, 2, 3, 4])
+        limit = rng.choice([0, 0, -1, 1, 2, 2, 3, 4])
         nkeys = rng.choice([2, 3, 4, 6])
         expire_ms = rng.choice([1500, 2500, 2500, 3500, 10500])
         sub = rng.random() < 0.05           # expiries below the wheel interval: outside the property
@@ -366,12 +394,19 @@ class C12(Property):
 
     def _aop(self, o):
         if o[0] == "set":
-            return "ASet %s %s %s" % (self._key(o[1]), cz(o[2]), cz(o[3]))
+            return "ASet %s %s %s" % (self._key(o[1]), cz(NIL_VALUE if o[2] is None else o[2]), cz(o[3]))
         if o[0] == "move":
             return "AMove %s %s" % (self._key(o[1]), cz(o[2]))
         if o[0] == "remove":
             return "ARemove %s" % self._key(o[1])
         return {"tick": "ATick", "drain": "ADrain", "stop": "AStop"}[o[0]]
+
+    def _wheel_term(self, n, interval, hold, ops, ob, gated):
+        obt = clist(["(%s, %s)" % (self._fired(f), RES[r]) for f, r in ob])
+        if gated:
+            opt = clist(["GRelease %s" % cz(o[1]) if o[0] == "release" else "GCall (%s)" % self._aop(o) for o in ops])
+            return "CGated %s %s %s %s %s" % (cz(n), cz(interval), clist([cz(v) for v in hold]), opt, obt)
+        return "CWheel %s %s %s %s" % (cz(n), cz(interval), clist([self._aop(o) for o in ops]), obt)
 
     def _fired(self, f):
         return clist(["(%s, %s)" % (cz(k), cz(v)) for k, v in f])
@@ -414,13 +449,23 @@ class C12(Property):
             tks = ["(%s, %s, %s)" % (cz(t["s"]), cz(t["e"]), self._fired(t["f"])) for t in obs["free"]["ticks"]]
             return "CFree %s %s %s %s" % (cz(case["n"]), cz(case["interval"]), clist(evs), clist(tks))
         if kind == "wheel":
-            ob = clist(["(%s, %s)" % (self._fired(s["f"]), RES[s["r"]]) for s in steps])
-            if case.get("hold") or any(o[0] == "release" for o in case["ops"]):
-                ops = clist(["GRelease %s" % cz(o[1]) if o[0] == "release" else "GCall (%s)" % self._aop(o) for o in case["ops"]])
-                return "CGated %s %s %s %s %s" % (cz(case["n"]), cz(case["interval"]),
-                                                  clist([cz(v) for v in case.get("hold") or []]), ops, ob)
-            ops = clist([self._aop(o) for o in case["ops"]])
-            return "CWheel %s %s %s %s" % (cz(case["n"]), cz(case["interval"]), ops, ob)
+            if case.get("n2"):
+                parts = []
+                for wi, (n, iv) in enumerate([(case["n"], case["interval"]), (case["n2"], case["interval2"])]):
+                    ops, ob = [], []
+                    for o, st in zip(case["ops"], steps):
+                        tgt, oo = (o[1], o[2:]) if o[0] == "@" else (0, o)
+                        if tgt == wi:
+                            ops.append(oo)
+                            ob.append((st["f"], st["r"]))
+                        else:       # the other wheel's operation: nothing may happen here
+                            ops.append(["release", -1])
+                            ob.append((st.get("x") or [], 0))
+                    parts.append(self._wheel_term(n, iv, case.get("hold") or [], ops, ob, True))
+                return "CBoth (%s) (%s)" % (parts[0], parts[1])
+            gated = bool(case.get("hold")) or any(o[0] == "release" for o in case["ops"])
+            return self._wheel_term(case["n"], case["interval"], case.get("hold") or [], case["ops"],
+                                    [(st["f"], st["r"]) for st in steps], gated)
         if kind == "new":
             r1 = RES[steps[0]["r"]] if steps else "ROk"
             r2 = RES[steps[1]["r"]] if len(steps) > 1 else "ROk"
@@ -453,6 +498,8 @@ class C12(Property):
         if kind == "cleaner":
             return sum(1 for s in obs["obs"] for x in (s.get("t") or []) if x[0] == "set") > \
                 sum(1 for o in case["ops"] if o[0] == "add")
+        if case.get("n2"):
+            return fired and any(st.get("f") for o, st in zip(case["ops"], obs["obs"]) if o[0] == "@" and o[1] == 1)
         ticks = 0
         pending = set()
         wrapped_move = False
@@ -475,9 +522,18 @@ class C12(Property):
         if kind == "wheel":
             fs.append("n=%d" % case["n"])
             fs.append("ticker=" + case.get("ticker", "rv"))
-            kinds = set(o[0] for o in case["ops"])
+            flat = [o[2:] if o[0] == "@" else o for o in case["ops"]]
+            kinds = set(o[0] for o in flat)
             fs += ["has_" + k for k in sorted(kinds)]
-            if any(o[0] in ("set", "move") and 0 < o[-1] < case["interval"] for o in case["ops"]):
+            if case.get("n2"):
+                fs.append("two_wheels")
+            if case.get("skeys"):
+                fs.append("string_and_int_keys")
+            if any(o[0] == "set" and o[2] is None for o in flat):
+                fs.append("nil_value")
+            if any(o[0] in ("set", "move") and o[-1] >= 2 ** 61 for o in flat):
+                fs.append("huge_delay")
+            if not case.get("n2") and any(o[0] in ("set", "move") and 0 < o[-1] < case["interval"] for o in flat):
                 fs.append("out_of_scope_delay")
             if any(s["r"] == 1 for s in obs["obs"]):
                 fs.append("has_ErrArgument")
